@@ -20,7 +20,7 @@ claimed = {
    note="Trusts harness/ref/e5 as the reading of the SEMI E5 item grammar (depth limit 64). The allocation constant (96 B per input byte + 4 KiB per call + 256 KiB slack per metered batch) is a stated assumption for 'constant multiple of the input length'.",
    technique="differential runtime monitor: total reference E5 decoder + accessor-level oracle + allocation meter over exhaustive-short/mutated/bomb inputs; checkptr via -race build"),
  "C05": dict(level=E,
-   text="Two runtime monitors over the real code. (a) The real supervisor (verif-tagged driver, no goroutines) is executed under a controlled scheduler: DFS over all schedules of transport calls, queued-event steps and commits interposed at step's load/store seam to depth 12 (quick) / 18 (thorough) with visited-state hashing, plus 20k / 1M random walks; an online monitor checks every observed State() change against the E37 edges, its cause, staleness across generations, the notification chain and the after-Close state. (b) End-to-end: Open/Close/reconnect histories on real hsmsss connections against a scripted peer under the race detector with a StateChangeHandler chain monitor and after-Close checks (also fed by the C10 lifecycle programs)." + HELD,
+   text="Two runtime monitors over the real code. (a) The real supervisor (verif-tagged driver, no goroutines) is executed under a controlled scheduler: DFS over all schedules of transport calls, queued-event steps and commits interposed at step's load/store seam to depth 12 (quick) / 18 (thorough) with visited-state hashing, plus 20k / 1M random walks; an online monitor checks every observed State() change against the E37 edges, its cause, staleness across generations, the notification chain and the after-Close state. (b) End-to-end: Open/Close/reconnect histories on real hsmsss connections against a scripted peer under the race detector with a StateChangeHandler chain monitor and after-Close checks (also fed by the C10 lifecycle programs), a T7 scenario, a connect-arriving-inside-Close scenario and a wedged-handler straggler scenario (a receive loop of a dead generation reporting its TCP-down late)." + HELD,
    note="The environment model of (a) (which transport calls are possible when) is stated in c05_driver.go and DESIGN.md; schedules outside it are not explored. Real-goroutine interleavings in (b) are sampled, widened by vhook delays. Three genuine defects found by (a) were repaired (fix: commits in known_findings.json).",
    technique="controlled-scheduler execution of the real FSM with an online trace monitor (edges, causes, notification chain) + e2e history monitor under the race detector"),
  "C06": dict(level=E,
@@ -28,23 +28,23 @@ claimed = {
    note="Unique tokens make the history unambiguous, so the scan is exact for the histories produced; interleavings are sampled (vhook delays at send.afterRegister/afterWrite, recv.beforeDispatch). The genuine (nil,nil) defect it found is repaired (fix: commit).",
    technique="offline history checker over call/return + peer frame logs (ownership, exactly-once, order) under the race detector with delay injection"),
  "C07": dict(level=F,
-   text="Complete product of 7 not-selected situations x 8 data-send entry points x 2 roles on real connections (error class, exactly one counted drop, nothing on the wire, control traffic unaffected, inbound data answered Reject(4) with echoed ids and not delivered); a racing variant with the peer toggling Deselect/Select and the write-lock seam forcing the write-boundary window, decided by conservation; and every 1-cut segmentation of select + pipelined data in both roles. Race build." + HELD,
+   text="Complete product of 7 not-selected situations x 8 data-send entry points x 2 roles on real connections (error class, exactly one counted drop, nothing on the wire, control traffic unaffected, inbound data answered Reject(4) with echoed ids and not delivered); a racing variant with the peer toggling Deselect/Select and the write-lock seam forcing the write-boundary window, decided by conservation; a deterministic one-send window scenario (a send parked at the write-lock seam while the link is closed / separated / deselected by the peer must not put data on a not-selected link); and every 1-cut segmentation of select + pipelined data in both roles. Race build." + HELD,
    note="The enumerated axes are complete; timing inside each case is sampled (vhook delays). 'Connecting' is modelled as refused port (active) / no peer (passive).",
    technique="enumerated situation x API product with wire/peer/metric observers; conservation monitor under racing select/deselect; exhaustive cut-point segmentation"),
  "C08": dict(level=E,
-   text="480 (quick) / 20k (thorough) peer frame sequences (length 1..12 over every SType 0..255, PType, body, arbitrary ids/status bytes; active and passive, validation on/off, host/equipment, coalesced or per-frame writes, supervisor-step delays, second TCP connections) each played against a fresh real connection; the exact FIFO outbound frame list fenced by a Linktest barrier, State() and handler deliveries are compared with an independent E37 responder state machine. Race build." + HELD,
+   text="1600 (quick) / 24k (thorough) peer frame sequences (length 1..12 over every SType 0..255, PType, body, arbitrary ids/status bytes; active and passive, validation on/off, host/equipment, coalesced or per-frame writes, supervisor-step delays, second TCP connections) each played against a fresh real connection; the exact FIFO outbound frame list fenced by a Linktest barrier, State() and handler deliveries are compared with an independent E37 responder state machine. Race build." + HELD,
    note="Trusts the responder table in c08Model (from the property text / E37). Two scheduling-dependent answers are accepted either way and documented (duplicate Select.rsp racing transaction close; S9F1 gated at write time).",
    technique="reference-model monitor: independent E37 responder FSM vs barrier-fenced outbound frame log of a real connection"),
  "C09": dict(level=F,
-   text="24 (quick) / 480 (thorough) multi-generation histories: each generation ended by one of the 7 drop kinds (peer FIN, RST, stall+write timeout, Close+reopen, linktest failure, T7, T8 - all kinds in every shard) while 8 senders keep sending sync/async/W-bit messages with unique tokens; every frame read by generation G's peer must belong to a call that was open while G existed, replies must carry the tag of the generation that read the primary, waiters must be released (never T3=30 s), and the previous generation's open system bytes replayed by the next peer must not complete anything. Race build." + HELD,
-   note="hsmsss only (SECS-I generations are exercised by C17/C18 workloads, not by this oracle). The drop instant relative to each send is sampled, not enumerated.",
+   text="40 (quick) / 480 (thorough) multi-generation histories: each generation ended by one of the 7 drop kinds (peer FIN, RST, stall+write timeout, Close+reopen, linktest failure, T7, T8 - all kinds in every shard) while 8 senders keep sending sync/async/W-bit messages with unique tokens; every frame read by generation G's peer must belong to a call that was open while G existed, replies must carry the tag of the generation that read the primary, waiters must be released (never T3=30 s), and the previous generation's open system bytes replayed by the next peer must not complete anything; senders stalled right after their write (hook) are followed across the drop, and a primary observed on an older generation's peer log while its caller is still waiting is a dead-generation waiter. A SECS-I phase parks a sender behind the line engine's inline handler (contention yield) and ends the generation by Close: the sender must be released with the connection-closed error. Race build." + HELD,
+   note="The hsmsss phase carries the generation-tag oracle; the SECS-I phase covers only the parked-waiter release (SECS-I line faults are C17/C18). The drop instant relative to each send is sampled, not enumerated.",
    technique="generation-tagged token monitor over per-generation peer logs under the race detector with delay injection"),
  "C10": dict(level=E,
-   text="144 (quick) / 4000 (thorough) lifecycle programs: 2..5 goroutines of Open/Close/send/UpdateConfig operations concurrent with a hostile peer script (serve, connect-only, drop, reset, stall, refuse, connect inside Close through gated Accept / delayed dial), then Close twice and leak meters (goroutine dump filtered to library frames, Close() on every harness-owned socket/listener, /proc fd count, no dial/listen after Close), double-Open guard, reopen + round trip. Race build; a hang is caught by the shard watchdog with a goroutine dump." + HELD,
-   note="hsmsss transport; handlers return immediately. Close latency bound is close timeout + 5 s. ErrCloseTimeout as a return value is counted, not judged.",
+   text="360 (quick) / 4000 (thorough) hsmsss lifecycle programs plus 96 / 2000 SECS-I programs against a raw TCP peer and a refused-Open-while-connect-pending scenario: 2..5 goroutines of Open/Close/send/UpdateConfig operations concurrent with a hostile peer script (serve, connect-only, drop, reset, stall, refuse, connect inside Close through gated Accept / delayed dial), then Close twice and leak meters (goroutine dump filtered to library frames, Close() on every harness-owned socket/listener, /proc fd count, no dial/listen after Close), double-Open guard, reopen + round trip. Race build; a hang is caught by the shard watchdog with a goroutine dump." + HELD,
+   note="hsmsss and secs1 transports; handlers return immediately. Close latency bound is close timeout + 5 s. ErrCloseTimeout as a return value is counted, not judged.",
    technique="randomized lifecycle programs with leak meters (goroutines, sockets, fds), latency bound and race detector"),
  "C20": dict(level=E,
-   text="40 (quick) / 1200 (thorough) histories of 1..32 concurrent senders whose calls end in every outcome (reply, reject, T3, cancel, refused, disconnect, write error), with a drop, a forced streak of refused dials and a reconnect; an accountant derives every counter from the per-call outcomes and the peer's own frame counts and compares at quiescent points; a sampler watches both gauges (never negative; Reconnecting()>0 inside the refusal streak). Race build." + HELD,
+   text="80 (quick) / 1200 (thorough) histories of 1..32 concurrent senders whose calls end in every outcome (reply, reject, T3, cancel, refused, disconnect, write error, write timeout against a peer that stops reading), with a drop, a forced streak of refused dials and a reconnect; an accountant derives every counter from the per-call outcomes and the peer's own frame counts and compares at quiescent points; a sampler watches both gauges (never negative; Reconnecting()>0 inside the refusal streak). Race build." + HELD,
    note="hsmsss transport. Exact equality with the peer's counts is required only at fault-free quiescent points; across a drop Send is bounded (a successful write may die in the socket buffer).",
    technique="conservation monitor: independent accountant vs library counters at quiescent points + gauge sampler"),
  "C03": dict(level=E,
@@ -56,7 +56,7 @@ claimed = {
    note="Timing clauses decided one-sidedly: idle gaps and stalls are many multiples of T8; 'slow but steady' and segmentation cases carry a measured max-gap premise and are discarded when the harness itself stalled.",
    technique="differential runtime monitor (reference frame acceptor) + segmenting/stalling raw peer with delivery oracle and allocation meter; race detector"),
  "C11": dict(level=F,
-   text="338 (quick) / ~900 (thorough) single link faults, each on a fresh real connection: FIN and RST cuts after exactly k bytes read/written for every k of the 14-byte prefix of every exchange (select both ways, data primary/reply/peer primary, linktest both ways) plus body offsets; stalls covered by T6/T7/T8/write timeout/linktest; Select.rsp status 2..255; 0..8 refused dials / failed listens over a back-off configuration grid. Recovery to Selected + round trip within 6 connection opportunities; requested reconnect delays (hook) vs the reference sequence; re-dial gaps (sound direction); Reconnects(); no dial after Close. Pure back-off function over a grid incl. overflow/Inf/NaN." + HELD,
+   text="368 (quick) / ~950 (thorough) single link faults, each on a fresh real connection: FIN and RST cuts after exactly k bytes read/written for every k of the 14-byte prefix of every exchange (select both ways, data primary/reply/peer primary, linktest both ways) plus body offsets; stalls covered by T6/T7/T8/write timeout/linktest, the T8 stall placed after every K=1..16 bytes of a frame; Select.rsp status 2..255; 0..8 refused dials / failed listens over a back-off configuration grid. Recovery to Selected + round trip within 6 connection opportunities; requested reconnect delays (hook) vs the reference sequence; re-dial gaps (sound direction); Reconnects(); no dial after Close. Pure back-off function over a grid incl. overflow/Inf/NaN." + HELD,
    note="'Eventually' is decided as bounded progress (6 opportunities). hsmsss transport; SECS-I line cuts are exercised by C18's middlebox, not here.",
    technique="fault enumeration by a byte-exact cutting/stalling peer + hook-reported back-off delays vs reference sequence"),
  "C12": dict(level=E,
@@ -80,15 +80,15 @@ claimed = {
    note="Where the docs explicitly document an error instead of a clamp both are accepted (never another value). Typed-nil item pointers are outside the statement (noted, not judged). Wire half: hsmsss.",
    technique="reference clamp model + recover-wrapped constructor fuzzing; wire observer (scripted peer log) for refused sends"),
  "C17": dict(level=E,
-   text="Outbound: a real secs1 connection transmits ~7k (quick) / 75k (thorough) messages (every body length 0..500/1000 plus block boundaries and 10-100 KiB bodies, every stream/function/W, both roles, device ids 0/1/0x7FFF, NAK-then-retransmit) to an independent SEMI E4 reference peer over loopback TCP; every transmission must parse as blocks 1..N of <=244 bytes with the right E-bit, device id, R-bit, header fields and 16-bit checksum, bodies concatenating to the SECS-II encoding. Inbound: 1024 / 24000 block sequences (one fault from 17 classes per message, each followed by a clean sentinel) fed by the reference peer; handler deliveries must equal those of the reference E4 receiver model and the link must stay Selected. Race build." + HELD,
+   text="Outbound: a real secs1 connection transmits ~7k (quick) / 75k (thorough) messages (every body length 0..500/1000 plus block boundaries and 10-100 KiB bodies, every stream/function/W, both roles, device ids 0/1/0x7FFF, NAK-then-retransmit) to an independent SEMI E4 reference peer over loopback TCP; every transmission must parse as blocks 1..N of <=244 bytes with the right E-bit, device id, R-bit, header fields and 16-bit checksum, bodies concatenating to the SECS-II encoding. Inbound: 1024 / 24000 block sequences (one fault from 18 classes per message, incl. blocks paced just inside T4, each followed by a clean sentinel) fed by the reference peer; handler deliveries must equal those of the reference E4 receiver model and the link must stay Selected. Race build." + HELD,
    note="Trusts harness/ref/e4 as the reading of SEMI E4 (block format, 9.4.4 receiver algorithm, handshake). 'Within T4'/'expired' rest on measured gaps (premise; forked model, discarded only when the branches disagree).",
    technique="reference-implementation peer: independent E4 codec + receiver model on the other end of a real secs1 link; delivery/byte oracle under the race detector"),
  "C18": dict(level=F,
    text="Two real secs1 connections (host, equipment) joined by a fault-injecting middlebox that parses the character stream with the reference E4 model and applies 302 (quick) / 3458 (thorough) fault plans: one flipped character at EVERY position of a block transmission, dropped/truncated blocks, every handshake character dropped or replaced, delays beyond T1/T2, persistent faults exhausting the retry limit, forced contention, random compositions; retry limits 0..3, 1-4 block messages, unique tokens. Offline scan of the recorded history: exactly-once intact in-order delivery of every successful send, attempts <= retry limit + 1, master-first contention resolution, no hang (watchdog + dump). Race build." + HELD,
-   note="Two genuine defects found and recorded as known findings (stale control characters consumed as handshake answers after a late grant; a block ACKed during link teardown whose message is then dropped). Overlaps of simultaneous sends are sampled; liveness is bounded (45 s send watchdog).",
+   note="Two genuine defects found: a block ACKed during link teardown whose message was then dropped is repaired (fix: commit); stale control characters consumed as handshake answers after a late grant remains a known finding (not a small repair). Overlaps of simultaneous sends are sampled; liveness is bounded (45 s send watchdog).",
    technique="fault-injecting middlebox between two real endpoints + offline exactly-once/order/retry-bound checker over the recorded line history"),
  "C19": dict(level=E,
-   text="Pure half: the two linktest decision functions (verif export) vs a reference written from the documented rules, exhaustive over a small ordered domain, and the whole failure-accounting loop folded over ALL ~300k (quick) / 2.4M (thorough) observation histories of length <=6/7 x threshold 1..4 x suppression on/off, plus two reducer-independent invariants. E2E half: scripted peers (silent, answering, alive-but-not-answering with suppression on/off, chatty, withheld reply) on real connections; probe counts seen by the peer, still-connected checks, sound lower bound on the drop time, ControlMetrics vs peer counts." + HELD,
+   text="Pure half: the two linktest decision functions (verif export) vs a reference written from the documented rules, exhaustive over a small ordered domain, and the whole failure-accounting loop folded over ALL ~300k (quick) / 2.4M (thorough) observation histories of length <=6/7 x threshold 1..4 x suppression on/off, plus two reducer-independent invariants. E2E half: scripted peers (silent, answering, alive-but-not-answering with suppression on/off, chatty, withheld reply, silent peer while the local side keeps sending) on real connections; probe counts seen by the peer, still-connected checks, sound lower bound on the drop time, ControlMetrics vs peer counts." + HELD,
    note="E2E timing is decided one-sidedly (counts and sound lower bounds); the chatty scenario needs a measured premise and is discarded otherwise.",
    technique="exhaustive reference-fold comparison of the real reducer + scripted-peer scenario monitors under the race detector"),
 }
